@@ -602,6 +602,39 @@ def w_iterdel( ctx ):
                 hits += 1
                 res.bad( src, n, 'the loop over the live view `%s` removes from `%s` ( %s )' % ( norm_text( it ), base, norm_text( st )[:60] ),
                          'the iteration step after the removal raises RuntimeError ( dictionary changed size during iteration ): the request that removed an entry - a Forward Close of an open connection - is answered with a failure status although it was carried out' )
+    # ---- tables shared by all sessions and changed by their threads without a lock ( confirmed by reading; one line of reason each ) are never
+    #      walked LIVE: a loop or comprehension over them goes through an atomic snapshot ( list( d ) / list( d.keys() ) / list( d.items() ) /
+    #      tuple / sorted / dict ) - another session's Forward Open or end-of-connection purge during a live walk raises RuntimeError in THIS one
+    SHARED = (( 'server/enip/device.py', 'self.forwards', 'Connection_Manager.forwards: class-level, one entry per open connection of every session' ),
+              ( 'server/enip/device.py', 'self.__class__.forwards', 'the same table' ), ( 'server/enip/device.py', 'Connection_Manager.forwards', 'the same table' ),
+              ( 'server/enip/ucmm.py', 'self.__class__.sessions', 'UCMM.sessions: class-level, one entry per registered peer' ), ( 'server/enip/ucmm.py', 'self.sessions', 'the same table' ),
+              ( 'server/enip/main.py', 'connections', 'main.connections: module-level statistics, one entry per live connection' ))
+    SNAP = ( 'list', 'tuple', 'sorted', 'dict', 'set', 'frozenset', 'len' )
+    walks = 0
+    for rel, base, why in SHARED:
+        if not ctx.model.exists( rel ):
+            continue
+        src = ctx.src( rel )
+        for n in ast.walk( src.tree ):
+            its = [ n.iter ] if isinstance( n, ast.For ) else [ g.iter for g in n.generators ] if isinstance( n, ( ast.ListComp, ast.SetComp, ast.DictComp, ast.GeneratorExp )) else []
+            for it in its:
+                view = it.func.value if isinstance( it, ast.Call ) and isinstance( it.func, ast.Attribute ) and it.func.attr in ( 'items', 'keys', 'values' ) and not it.args else it
+                if dotted( view ) != base:
+                    continue
+                walks += 1
+                locked = any( isinstance( a, ast.With ) and any( 'lock' in ( txt( i_.context_expr ) or '' ).lower() for i_ in a.items ) for a in src.ancestors( n ))
+                if locked:
+                    res.ok( src, n, 'walk over the shared table %s under a lock' % base )
+                else:
+                    hits += 1
+                    res.bad( src, n, 'live walk over the shared table `%s` ( %s )' % ( norm_text( it ), why ),
+                             'another session that opens or closes a connection while this loop or comprehension runs changes the table under it: RuntimeError ( dictionary changed size during iteration ) - a valid Forward Close of this session\'s own connection is answered 0x08' )
+    # a snapshot `for k in list( self.forwards.keys() )` has the Call as its iter and is not a walk over the table; count them for the record
+    snaps = sum( 1 for rel, base, why in SHARED if ctx.model.exists( rel ) for n in ast.walk( ctx.src( rel ).tree ) if isinstance( n, ast.Call ) and call_name( n ) in SNAP and n.args
+                 and base in ( dotted( n.args[0] ), dotted( n.args[0].func.value ) if isinstance( n.args[0], ast.Call ) and isinstance( n.args[0].func, ast.Attribute ) else None ))
+    res.note( 'shared tables: %d live walks, %d snapshots' % ( walks, snaps ))
+    if snaps < 1:
+        raise AnalysisError( 'W-ITERDEL: no snapshot of a shared table found ( anchors lost? )' )
     if loops < 100:
         raise AnalysisError( 'W-ITERDEL: only %d loops scanned' % loops )
     # positive fixture: the rule's own pattern must match a known-bad loop
